@@ -1,7 +1,7 @@
 (* C13: concrete witnesses (refutations found by the model and replayed on
    the real code by the harness) and non-vacuity examples. *)
 From Coq Require Import List NArith Bool Arith Lia.
-From LV Require Import Arb.RestartModel Arb.RestartExec Arb.RestartProofs.
+From LV Require Import Arb.RestartModel Arb.RestartExec Arb.RestartProofs Arb.RestartIncModel.
 Import ListNotations.
 Local Open Scope N_scope.
 
@@ -118,3 +118,66 @@ Example rich_nonvacuous :
   /\ terminal (run sc_rich (repeat M 9 ++ [ECrash] ++ repeat M 7 ++ [R 24; R 24; ECrash]
                               ++ rr sc_rich 60)) = true.
 Proof. repeat split; try (left; reflexivity); vm_compute; reflexivity. Qed.
+
+(* ---- received htlcs (RestartIncModel): non-vacuity of the hypotheses ---- *)
+Definition ip_remote : iparams := mkIP false 27 7 27.
+Definition ip_local : iparams := mkIP true 27 7 0.
+
+(* preimage learned after a stop, stop between applyPreimage and
+   SwapContract, stop after the swap: C13_incoming_preimage_wins applies
+   (preimage known, expiry not reached) and its conclusion is what happens *)
+Definition h_inc_late : list iev :=
+  [IStep; ICrashE; IPre; IStep; ICrashE; IStep; IStep; ICrashE].
+
+Example inc_preimage_hyp :
+  i_pre (irun ip_local h_inc_late) = true /\ i_exp (irun ip_local h_inc_late) = false
+  /\ i_disk (irun ip_local h_inc_late) = IDSuccess false false
+  /\ i_disk (isteps ip_local 12 (irun ip_local h_inc_late)) = IDGone true
+  /\ i_outs (isteps ip_local 12 (irun ip_local h_inc_late)) = [OFinal 7 true]
+  /\ i_reps (isteps ip_local 12 (irun ip_local h_inc_late)) = [(0, 0); (27, 4)].
+Proof. repeat split; vm_compute; reflexivity. Qed.
+
+(* expiry: stop between PutFinalHtlcOutcome(false) and Checkpoint(resolved),
+   the preimage turning up afterwards does not change the branch *)
+Definition h_inc_exp : list iev := [IStep; IExp; IStep; IStep; ICrashE; IPre].
+
+Example inc_expiry_hyp :
+  (i_pre (irun ip_remote h_inc_exp) = true \/ i_exp (irun ip_remote h_inc_exp) = true)
+  /\ i_disk (irun ip_remote h_inc_exp) = IDContest false
+  /\ i_outs (irun ip_remote h_inc_exp) = [OFinal 7 false]
+  /\ i_disk (isteps ip_remote 12 (irun ip_remote h_inc_exp)) = IDGone false
+  /\ i_outs (isteps ip_remote 12 (irun ip_remote h_inc_exp)) = [OFinal 7 false; OFinal 7 false]
+  /\ i_reps (isteps ip_remote 12 (irun ip_remote h_inc_exp)) = [(27, 3)].
+Proof. repeat split; try (left; reflexivity); vm_compute; reflexivity. Qed.
+
+(* without the preimage and before the expiry the resolver waits (the
+   hypothesis of C13_incoming_progress is needed) *)
+Example inc_waits :
+  gone (isteps ip_remote 12 (irun ip_remote [IStep; ICrashE; IStep])) = false.
+Proof. reflexivity. Qed.
+
+(* whole channel: remote close with an offered htlc timing out (21), a
+   received htlc claimed after a late preimage (27: swap, claim) and one that
+   expires (28); C13_incoming_same_outcome's hypotheses hold and a crashy
+   history reaches the terminal state *)
+Definition sc_in : scen :=
+  mkScen KRemote false false false false [2] [] [3]
+         [mkSpec 900 [mkStage [] [(900, 0)]];
+          mkSpec 21 [mkStage [OFail 1] [(21, 3)]];
+          inc_spec ip_remote true;
+          inc_spec (mkIP false 28 8 28) false].
+
+Example sc_in_nonvacuous :
+  wf_scen sc_in = true
+  /\ (sc_cs_acts sc_in = false \/ sc_fails_default sc_in = [])
+  /\ In (inc_spec ip_remote true) (sc_resolvers sc_in)
+  /\ In (inc_spec (mkIP false 28 8 28) false) (sc_resolvers sc_in)
+  /\ ~ In (OFinal 7 false) (expected_outs sc_in)
+  /\ terminal (run sc_in (repeat M 9 ++ [R 27; ECrash] ++ repeat M 4 ++ [R 27; R 27; ECrash]
+                            ++ rr sc_in 60)) = true.
+Proof.
+  repeat split; try (left; reflexivity); try (vm_compute; reflexivity).
+  - right. right. left. reflexivity.
+  - right. right. right. left. reflexivity.
+  - vm_compute. intuition discriminate.
+Qed.
